@@ -19,8 +19,8 @@ HARNESS = os.path.join(VERIF, "harness")
 BUILD = os.path.join(VERIF, "build")
 BIN = os.path.join(BUILD, "bin")
 RUNS = os.path.join(BUILD, "runs")
-EVID = os.path.join(VERIF, "evidence")
-REPLAYS = os.path.join(VERIF, "replays")
+EVID = os.environ.get("VERIF_EVIDENCE_DIR") or os.path.join(VERIF, "evidence")
+REPLAYS = os.path.join(os.environ["VERIF_EVIDENCE_DIR"], "replays") if os.environ.get("VERIF_EVIDENCE_DIR") else os.path.join(VERIF, "replays")
 NCPU = int(os.environ.get("VERIF_JOBS", "16"))
 SEED = int(os.environ.get("VERIF_SEED", "1") or "1")
 
